@@ -119,3 +119,25 @@ reg("C19", "proof", ["contracts.purity:Purity", "contracts.overlap:NormContInlin
     note="per-call frame conditions proved for all real inputs on the enumerated shapes; the statement for every call sequence follows by "
          "induction on the length of the sequence (each call starts from an unchanged state and depends only on its arguments)",
     extra_assumptions=["history quantifier discharged by the composition lemma over per-call frames, not by exploring sequences"])
+
+reg("C13", "proof", ["contracts.contraction_algebra:ContractionAlgebra", "contracts.overlap:AssignNormCont", "contracts.overlap:Cleanup"],
+    ["construct_array_contraction of Overlap, KineticEnergyIntegral, MomentumIntegral, AngularMomentumIntegral, Moment, PointChargeIntegral, "
+     "ElectronRepulsionIntegral, EvalDeriv (kernels inlined)", "gbasis.contractions.GeneralizedContractionShell.assign_norm_cont"],
+    extra_assumptions=["a shell's contraction is not the zero function (its self-overlap, the radicand of norm_cont, is positive)",
+                       "symbolic Boys function for the Coulomb modules"])
+
+reg("C11", "proof", ["contracts.symmetry:AssemblyPermutation", "contracts.symmetry:BlockOrientation", "contracts.coulomb:ERISymmetry",
+    "contracts.coulomb:PointChargeInline", "contracts.assembly:TwoSymm", "contracts.assembly:TwoSymmHerm", "contracts.assembly:FourSymm"],
+    ["Base{One,TwoIndexSymmetric,FourIndexSymmetric}.construct_array_* on permuted shell lists",
+     "construct_array_contraction of every two-index class in both orientations", "ElectronRepulsionIntegral.construct_array_contraction in eight orientations"],
+    note="lemma over the assembly contracts (C09) and the block contracts (C01-C04, C07, C08), re-discharged here on the current tree",
+    extra_assumptions=["rounding clause ('also for quartets pairing tight and diffuse shells' in floating point) is outside the deductive part"])
+
+reg("C12", "proof", ["contracts.covariance:Covariance"],
+    ["construct_array_contraction of Overlap, KineticEnergyIntegral, MomentumIntegral, AngularMomentumIntegral, Moment, PointChargeIntegral, "
+     "ElectronRepulsionIntegral, EvalDeriv on a system and its image (kernels inlined)"],
+    note="two symbolic runs of the real block routines (system / image) compared through the representation matrices; translation vector symbolic; "
+         "48 signed axis permutations; rotation about z with a symbolic rational parameter (generates, with the permutations, all proper rotations). "
+         "The exactness obligations of C01-C08 (distinct symbols per axis) carry the rest.",
+    extra_assumptions=["rotations: l <= 2 (3 in the thorough tier for scalars); general rotations follow from the generators by the group law, not checked as such",
+                       "symbolic Boys function"])
